@@ -1,7 +1,8 @@
 from vlib import runner, sysprops
 
 PARTIAL = [
-    "the global statement is false once the dispatch has panicked (C02NoStuckStatement_false: the timer-wheel-lag panic freezes the dispatch); the bounded form C02NoStuckStatement' (clock below 2^35 ms) is a def decided on every woken-only trace by the settle operation; proved: the per-event wake and registration theorems, the accounting invariant (Props/C02Account.lean), terminal fan-out, quiescence of settle",
+    'client: the global statement is PROVED for op sequences whose clock stays below 2^35 ms (C02_no_stuck: after settle no live call is stuck; the six wake/parking/accounting clauses hold in every reachable state); without the bound it is false because a panicked dispatch is frozen in the model (C02NoStuckStatement_false = known finding timer-wheel lag)',
+    'server: per-event wake and registration theorems and quiescence of settle are proved; C02ServerNoStuckStatement stays a def decided on every woken-only trace by settle',
     'wake observations of the implementation include spurious self-wakes of the timer queue that the model reproduces only approximately; the comparison therefore uses outcomes and stuck sets after settling, not raw wake sets',
 ]
 
